@@ -79,6 +79,9 @@ def drive_nat(args):
     n = AG.numel(AG.shape_of(a, a['start']))
     if i % 4 == 3:
         a = AG.add_reversed_twin(rng, a, value_cap=1500)
+    if i % 8 == 5:
+        a = AG.gen_factor_at_two_levels(rng)       # (edge and rule order are shuffled by the generator)
+    n = AG.numel(AG.shape_of(a, a['start']))
     # cotangents are signed (a loss such as -Z or -log Z): every third grammar gets negative entries
     cot = [rng.choice([0, 1, 1, 2] if i % 3 else [0, 1, -1, -2, 2]) for _ in range(n)]
     cotlog = [0] * n
